@@ -993,5 +993,18 @@ def gen_SystemPy(repo):
     L.append("def getStateBody : List String := %s" % lean_list([lean_str(x) for x in body_text("get_state")]))
     L.append("def getChemostatBody : List String := %s" % lean_list([lean_str(x) for x in body_text("get_chemostat")]))
     L.append("def getStateIndexBody : List String := %s" % lean_list([lean_str(x) for x in body_text("get_state_index")]))
+    # ---- RDSystem.space setter: validation of the space's environment map against the network (absent in older trees)
+    bad = None
+    for n in rds.tree.body:
+        if isinstance(n, ast.ClassDef) and n.name == "RDSystem":
+            for fn in n.body:
+                if isinstance(fn, ast.FunctionDef) and fn.name == "space" and len(fn.args.args) == 2:
+                    for st in fn.body:
+                        if isinstance(st, ast.For) and _norm(rds, st.iter) == "v.get_cell_env_array()" and _norm(rds, st.target) == "e":
+                            for b in st.body:
+                                if isinstance(b, ast.If) and any(isinstance(r, ast.Raise) for r in b.body):
+                                    bad = _ExprTrMin(rds, {"int(e)": "e", "self.network.nenvironments()": "nenv"}).tr(b.test)
+    L.append("/-- `RDSystem.space` setter: a cell environment index for which this holds is rejected (`false` = no validation) -/")
+    L.append("def spaceEnvBad (nenv e : Int) : Bool := %s" % (bad if bad is not None else "false"))
     L.append("\nend Strengths.Gen")
     return "\n".join(L) + "\n"
